@@ -9,10 +9,14 @@ CHECK = {
             "in quick) with zero and adversarial filler; Poseidon input lengths 0..12 in circuit (0..40 off circuit), "
             "sponge scripts in both modes; SHA-256 / SHA-512 chip wiring: EVERY chip region of a 1-block and a 2-block "
             "message (3 blocks thorough) recorded from the real synthesis and compared with the Lean emitter "
-            "(552 / 704 regions per block; the structure has no other parameter than the number of blocks, several "
+            "(552 / 696 regions per block; the structure has no other parameter than the number of blocks, several "
             "message lengths per block count), every row of the two loaded plain-spreaded tables, and the real honest "
-            "witness of every SHA-256 region checked against the model's satisfaction predicate; distinctness by hash "
-            "of the request line",
+            "witness of every SHA-256 and every SHA-512 region (one-block message; also two/three blocks in thorough) "
+            "checked against the model's satisfaction predicate; every hash entry point of ZkStdLib (sha2_256, "
+            "sha2_512, sha3_256, keccak_256, blake2b_256/512, poseidon) ALONE in a relation through MidnightCircuit "
+            "with only its own ZkStdLibArch flag (plus sha3_256 under the keccak flag and vice versa); the buffer "
+            "layout of every var-len SHA-256 case against the model's byteBuffer; distinctness by hash of the "
+            "request line",
     "explanation": "Lean theorems over an executable model of the Poseidon code (textbook permutation, shifted rounds, "
                    "round-skip identities of round_skips.rs, sponge, var-len selection) for every state / skip count / "
                    "table, over Lean reference SHA-256/512/RIPEMD-160 with the spread-table arithmetic of the chips, and "
@@ -27,15 +31,25 @@ CHECK = {
                    "assignment of all cells that satisfies the generated gates modulo p, both lookups and the copy "
                    "constraints of the emitted regions puts the FIPS 180-4 values in the output cells; "
                    "sha256_spread_table_spec ties the lookup predicate to the model of gen_spread_table, which is compared "
-                   "row by row with the table the chip loads. Model tied to the implementation by running in-circuit (real "
+                   "row by row with the table the chip loads. SHA-512 chip wiring: the same development for sha512_chip.rs "
+                   "(Model/C07/Sha512Chip.lean, gates dumped from the real Sha512Chip::configure into "
+                   "Gen/C07Sha512Gates.lean by the same translator): sha512_ops_sound, sha512_round_sound, "
+                   "sha512_schedule_sound, sha512_block_sound (induction over the 80 rounds), sha512_digest_sound(_native) "
+                   "(induction over the blocks), sha512_spread_table_spec. Var-len SHA-256: sha256_varlen_select_spec / "
+                   "sha256_varlen_digest_spec hold for EVERY MAX_LEN multiple of 64, every len and filler (induction over "
+                   "the chunks + naturality of compute_padding + kernel evaluation of the 65 final-chunk lengths). Var-len "
+                   "Poseidon: poseidon_varlen_tail_independent for every RATE, WIDTH, MAX_LEN, len (the digest only depends "
+                   "on the payload cells: neither on the filler in front nor on the unused tail of the last chunk), and the "
+                   "literal loop of constrain_last_chunk (the function the driver runs) equals the closed form "
+                   "(constrain_last_chunk_spec, varlen_loop_eq_closed_form). Model tied to the implementation by running in-circuit (real "
                    "chips under MockProver), off-circuit and Lean model on the same inputs, by the region-relative "
                    "synthesis trace of the SHA-256 and SHA-512 chips (recording Assignment backend driving the real floor "
                    "planner: one line per region, compared with the emitters; a dropped copy constraint, selector, tag or "
-                   "cell changes a line), by checking the real prover's witness of every SHA-256 region against the "
+                   "cell changes a line), by checking the real prover's witness of every SHA-256 and SHA-512 region against the "
                    "model's Sat (so the hypothesis of the soundness theorems is not stronger than the real circuit), by the "
                    "row traces of the Poseidon permutation region, by table-level tamper sweeps (H2) on the Poseidon and "
                    "SHA-256 circuits (search tier: every cell of the chip regions of two rounds, two schedule steps and the "
-                   "state addition) and by consistent local forgeries of Poseidon round rows. The trace tie is deliberately "
+                   "state addition of SHA-256; of a schedule step, round 0 and the end of the state addition of SHA-512) and by consistent local forgeries of Poseidon round rows. The trace tie is deliberately "
                    "tight: any change of what a chip region assigns (even a sound one, e.g. a wider carry tag) is reported "
                    "with no-failing-input-found; re-association of gate expressions and reordering of independent "
                    "assignments inside a region are not reported",
@@ -47,29 +61,38 @@ CHECK = {
         "the recording Assignment backend of the harness (harness/c07/src/rec.rs) and SimpleFloorPlanner placing regions "
         "without overlap: gates are evaluated region-relatively in the Lean model (every gate of the chip only reads "
         "rows -1..+1 around its selector, inside its region)",
-        "SHA-256 chip theorems: the native modulus is prime (hypothesis Nat.Prime p of the theorems; proved for the "
-        "BLS12-381 scalar modulus in Proofs/C10/Prime.lean) and cell values are canonical representatives; the "
-        "conversions bytes <-> 32-bit words and the range of the block words are the native gadget's (C04)",
+        "SHA-256 / SHA-512 chip theorems: stated for any prime p >= 2^66 / 2^130 (the *_native forms instantiate the "
+        "dumped modulus, proved prime by the Lucas certificate of Proofs/C10/Prime.lean); cell values are canonical "
+        "representatives; the conversions bytes <-> 32/64-bit words and the range of the block words are the native "
+        "gadget's (C04)",
+        "var-len theorems are at value level (select / is_equal_to_fixed / xor / rem of the native gadget are taken "
+        "with their arithmetic meaning, C04); the compression inside sha256_varlen is the chip's "
+        "(sha256_block_sound) and is compared through the digest",
     ],
     "level_text": "Kernel-checked Lean theorems about an executable model of the Poseidon permutation/sponge/var-len "
-                  "code (all states, all skip counts, all lengths and fillers), about the SHA-256 chip (emitter mirroring "
-                  "sha256_chip.rs + gate polynomials dumped from the real configure: for every assignment satisfying "
-                  "gates, lookups and copy constraints the output cells of every operation, of a compression round, of "
-                  "the message schedule, of a whole block and of any chain of blocks hold the FIPS 180-4 values) and about "
-                  "reference SHA-2 with the spread arithmetic and padding; constants parsed from the sources and proved "
-                  "to be the published ones; emitters of the SHA-256 and SHA-512 chips compared region by region with the "
-                  "real synthesis, digests checked against the real chips (MockProver), the off-circuit functions and "
-                  "RustCrypto at every boundary length",
-    "level_note": "SHA-256 chip: proved from the chip's own gates/lookups/copies for the block words as 32-bit inputs; "
-                  "byte<->word conversion and padding cells are the native gadget's (digest correspondence + "
-                  "sha256_padding_spec), primality of the modulus is a hypothesis; SHA-512 wiring is tied structurally "
-                  "(emitter = real trace, table rows) but has no soundness theorem yet; RIPEMD-160 wiring is still covered "
-                  "by digest correspondence and tamper sampling only; the var-len SHA-256 selection theorem is exhaustive "
-                  "for MAX_LEN 64/128 (partial); Keccak/SHA3/BLAKE2b circuits are third-party (test-level); Poseidon "
-                  "theorems are over an arbitrary commutative ring, the driver instance is integers mod p",
+                  "code (all states, all skip counts, all lengths and fillers; var-len tail independence for every RATE), "
+                  "about the SHA-256 AND the SHA-512 chip (emitters mirroring sha256_chip.rs / sha512_chip.rs + gate "
+                  "polynomials dumped from the real configure: for every assignment satisfying gates, lookups and copy "
+                  "constraints the output cells of every operation, of a compression round, of the message schedule, of a "
+                  "whole block and of any chain of blocks hold the FIPS 180-4 values), about var-len SHA-256 for every "
+                  "MAX_LEN/len/filler (compressed blocks = FIPS padding of the payload; digest = SHA-256 of the payload) "
+                  "and about reference SHA-2 with the spread arithmetic and padding; constants parsed from the sources and "
+                  "proved to be the published ones; emitters compared region by region with the real synthesis, honest "
+                  "witnesses of both chips checked against the model's Sat, digests checked against the real chips "
+                  "(MockProver), the off-circuit functions and RustCrypto at every boundary length; every ZkStdLib hash "
+                  "entry point driven alone through MidnightCircuit",
+    "level_note": "SHA-256/SHA-512 chips: proved from the chips' own gates/lookups/copies for the block words as 32/64-bit "
+                  "inputs; byte<->word conversion and padding cells are the native gadget's (digest correspondence + "
+                  "sha256/sha512_padding_spec); RIPEMD-160 wiring is still covered by digest correspondence (Lean reference "
+                  "function, RustCrypto, real chip) and constants only: no emitter, no soundness theorem; var-len SHA-256 "
+                  "and var-len Poseidon theorems are at value level (the selection/padding logic; not the gate level of "
+                  "select/xor/is_equal of the native gadget); Keccak/SHA3/BLAKE2b circuits are third-party (test-level); "
+                  "Poseidon theorems are over an arbitrary commutative ring, the driver instance is integers mod p",
     "technique": "emitter + generated gate ASTs + per-region soundness lemmas (no-wrap-around exactness, spread-sum "
                  "uniqueness, limb-list rotation lemmas) composed by induction over rounds and blocks; executable Sat "
-                 "checker run on the real witness; region-relative synthesis-trace equality",
+                 "checker run on the real witness; region-relative synthesis-trace equality; parametricity (map "
+                 "naturality) + kernel evaluation on position tags for compute_padding; invariant-carrying induction "
+                 "over the chunk loops of the var-len gadgets",
     "assumptions": [
         "the partial-round S-box position (cell WIDTH-1 instead of cell 0 of the Poseidon paper) is taken as part of "
         "the specification of this Poseidon instance",
